@@ -395,6 +395,39 @@ class Ctx:
         return 0
 
 
+
+# ----------------------------------------------------------------------------
+# independent re-check (thorough tier)
+# ----------------------------------------------------------------------------
+
+def coqchk_stage(ctx, timeout=2400):
+    """Thorough tier: re-check the compiled Props file(s) of the property and everything they depend on with
+    the independent checker coqchk, and record the axioms it reports.  A checker error is a lost guarantee
+    (violation without failing input); a timeout is recorded, not fatal."""
+    prop = ctx.prop
+    vos = sorted(glob.glob(os.path.join(COQ, prop, "Props*.vo")))
+    if not vos:
+        ctx.notes.append("coqchk: no compiled Props file for %s" % prop)
+        return
+    mods = ["ADV.%s.%s" % (prop, os.path.basename(v)[:-3]) for v in vos]
+    t0 = time.time()
+    rc, out = sh(["coqchk", "-silent", "-o", "-Q", COQ, "ADV"] + mods, timeout=timeout, cwd=COQ)
+    secs = round(time.time() - t0)
+    ax = []
+    m = re.search(r"\* Axioms:\s*(.*?)(?:\n\s*\n|\* Constants|\Z)", out, flags=re.S)
+    if m:
+        ax = [l.strip() for l in m.group(1).split("\n") if l.strip() and l.strip() != "<none>"]
+    ctx.cov["coqchk"] = {"modules": mods, "exit": rc, "secs": secs, "axioms": ax[:80],
+                         "cmd": "coqchk -silent -o -Q /verif/coq ADV " + " ".join(mods)}
+    ctx.oblige(1, 1 if rc in (0, 124) else 0)
+    if rc == 124:
+        ctx.notes.append("coqchk timed out after %ss (recorded, not fatal)" % timeout)
+    elif rc != 0:
+        ctx.violation({"obligation": "coqchk " + " ".join(mods), "log": out[-3000:]}, False,
+                      "independent re-check (coqchk) of the property theorems failed")
+    ctx.log("coqchk: exit %s in %ss, %d axioms reported" % (rc, secs, len(ax)))
+
+
 TRUSTED_BASE_COMMON = [
     "Coq 8.16.1 kernel and vm_compute (no native_compute); coqchk re-check in thorough tier",
     "hand-written Gallina model of the Go code, tied to /repo by the correspondence run of this check (Go harness built from the working tree, model evaluated by vm_compute on the same inputs)",
